@@ -150,4 +150,76 @@ theorem call_perm (n : Bytes) (ms ms' : List Bytes) (h : ms.Perm ms') (path : By
     exact List.append_cancel_left (hx.symm.trans hy)
   simp only [this]
 
+/-! ### Builders -/
+
+/-- Whatever is called, the services inside the router are those mounted so far. -/
+theorem step_svcs (st : St) (op : Op) : (st.step op).table.svcs = st.table.svcs ++ op.services := by
+  cases st with
+  | routes t =>
+    cases op with
+    | addOptional s => cases s <;> simp [St.step, St.table, Op.services, Table.addService]
+    | _ => simp [St.step, St.table, Op.services, Table.addService]
+  | builder t =>
+    cases t <;> cases op with
+    | addOptional s => cases s <;> simp [St.step, St.table, Op.services, Table.addService, Table.default]
+    | _ => simp [St.step, St.table, Op.services, Table.addService, Table.default]
+  | server t =>
+    cases op with
+    | addOptional s => cases s <;> simp [St.step, St.table, Op.services, Table.addService]
+    | _ => simp [St.step, St.table, Op.services, Table.addService]
+
+/-- No call other than the user's own `axum_router_mut().route(…)` adds a user route, and no
+call at all changes the fallback. -/
+theorem step_rest (st : St) (op : Op) :
+    (st.step op).table.fb = st.table.fb ∧
+    (op.tonicOnly = true → (st.step op).table.user = st.table.user) := by
+  cases st with
+  | routes t =>
+    cases op with
+    | addOptional s => cases s <;> simp [St.step, St.table, Table.addService]
+    | _ => simp [St.step, St.table, Table.addService, Op.tonicOnly]
+  | builder t =>
+    cases t <;> cases op with
+    | addOptional s => cases s <;> simp [St.step, St.table, Table.addService, Table.default]
+    | _ => simp [St.step, St.table, Table.addService, Table.default]
+  | server t =>
+    cases op with
+    | addOptional s => cases s <;> simp [St.step, St.table, Table.addService]
+    | _ => simp [St.step, St.table, Table.addService]
+
+theorem foldl_svcs (ops : List Op) : ∀ (st : St),
+    (ops.foldl St.step st).table.svcs = st.table.svcs ++ ops.flatMap Op.services := by
+  induction ops with
+  | nil => intro st; simp
+  | cons op ops ih =>
+    intro st
+    rw [List.foldl_cons, ih, step_svcs, List.flatMap_cons, List.append_assoc]
+
+theorem foldl_fb (ops : List Op) : ∀ (st : St), (ops.foldl St.step st).table.fb = st.table.fb := by
+  induction ops with
+  | nil => intro st; rfl
+  | cons op ops ih => intro st; rw [List.foldl_cons, ih, (step_rest st op).1]
+
+theorem foldl_user (ops : List Op) (h : ∀ op ∈ ops, op.tonicOnly = true) : ∀ (st : St),
+    (ops.foldl St.step st).table.user = st.table.user := by
+  induction ops with
+  | nil => intro st; rfl
+  | cons op ops ih =>
+    intro st
+    rw [List.foldl_cons, ih (fun o ho => h o (List.mem_cons_of_mem _ ho)),
+      (step_rest st op).2 (h op List.mem_cons_self)]
+
+theorem start_svcs (s : Start) : s.run.table.svcs = s.services := by
+  cases s with
+  | serverAddOptional o => cases o <;> rfl
+  | _ => rfl
+
+theorem start_rest (s : Start) (h : s.tonicOnly = true) :
+    s.run.table.fb = .unimplemented ∧ s.run.table.user = [] := by
+  cases s with
+  | serverAddOptional o => cases o <;> exact ⟨rfl, rfl⟩
+  | fromAxum u => cases h
+  | builderFromAxum u => cases h
+  | _ => exact ⟨rfl, rfl⟩
+
 end Router
